@@ -161,6 +161,10 @@ class Events:
                         # K < y  ==  not (y < K+1)
                         x, y, val = y, "K%d" % (kx + 1), not val
                     pred = "LT[%s,%s]" % (x, y)
+            elif o[0] == "call" and o[1] in ("core::cmp::PartialEq::eq", "core::cmp::PartialEq::ne") and len(o[2]) == 2:
+                a, b = sorted([self.roles.of_origin(o[2][0]), self.roles.of_origin(o[2][1])])
+                pred = "BR[PartialEq::eq(%s,%s)]" % (a, b)
+                val = truth if o[1].endswith("::eq") else (not truth)
             else:
                 pred = "BR[%s]" % self.roles.of_origin(o)
                 val = truth
